@@ -8,7 +8,8 @@ R1 cartesian product: in every `combine` that calls `self._product`, each `_prod
    `len(self._token_values[tag]) == len(self.items)`, builds the product with the arriving port replaced by
    the singleton `[token]` and every other port by its full list, yields once per combination and retags with
    <own prefix> + <last component of every member>; `_add_to_port` refuses a token whose tag is already
-   present; wiring: `add_combinator` / `get_combinator` / `utils.dict_product`.
+   present (loop with early exit or `any` / `all` over the port list; the port list is `tag_values[port]` or
+   `tag_values.setdefault(port, <empty container>)`, directly or through a local); wiring: `add_combinator` / `get_combinator` / `utils.dict_product`.
    Order provenance (`_tag_order`, every Combinator subclass): a tag assembled from components (`'.'.join(seq)` handed to
    `retag` / `tag=`) must not take the ORDER of `seq` from the key order of `self._token_values` / `self._token_values[tag]`
    (dict insertion order = order in which tags / ports received their first token) -- followed through locals, copies,
@@ -124,6 +125,34 @@ def _len_items_guard(f, test, tag_pred) -> bool | None:
     if (is_tv(a) and is_items(b)) or (is_items(a) and is_tv(b)):
         return isinstance(test.ops[0], ast.Eq)
     return None
+
+
+def _empty_container(f, e) -> bool:
+    """`deque()` / `list()` / `[]` (possibly through a local): a fresh container without elements."""
+
+    def empty(o):
+        if isinstance(o, ast.List):
+            return not o.elts
+        return (isinstance(o, ast.Call) and not o.args and not o.keywords
+                and (dotted(o.func) or "").split(".")[-1] in ("deque", "list"))
+
+    os_ = orig(f, e)
+    return bool(os_) and all(empty(o) for o in os_)
+
+
+def _port_slot(f, tv, port):
+    """Predicate: the expression denotes the port list `<tv>[<port>]` of the per-tag port map parameter `tv` -- written as the
+    subscript, or as `<tv>.setdefault(<port>, <empty container>)` (same list; creates it first when the port is new), directly or
+    through a local.  A setdefault whose default is not provably empty is NOT a slot (its default could already hold tokens)."""
+
+    def one(o):
+        if isinstance(o, ast.Subscript):
+            return is_param(f, o.value, tv) and is_param(f, o.slice, port)
+        if method_call(o, "setdefault") and not o.keywords and len(o.args) == 2:
+            return is_param(f, o.func.value, tv) and is_param(f, o.args[0], port) and _empty_container(f, o.args[1])
+        return False
+
+    return lambda e: any_origin(f, e, one)
 
 
 def _resolves(p, f, call, qn) -> bool:
@@ -381,8 +410,7 @@ def r1(ctx):
     tok, tv, port = ps
     g = f.cfg
 
-    def slot(e):
-        return any_origin(f, e, lambda o: isinstance(o, ast.Subscript) and is_param(f, o.value, tv) and is_param(f, o.slice, port))
+    slot = _port_slot(f, tv, port)
 
     apps = [n.id for n in g.nodes.values() if any(
         method_call(c, "append") and slot(c.func.value) and len(c.args) == 1 and is_param(f, c.args[0], tok) for c in node_calls(g, n))]
@@ -1034,8 +1062,7 @@ def r3(ctx):
     ctx.require(len(bps) == 3, "C02.R3: Combinator._add_to_port signature changed")
     bg = bf.cfg
 
-    def bslot(e):
-        return any_origin(bf, e, lambda o: isinstance(o, ast.Subscript) and is_param(bf, o.value, bps[1]) and is_param(bf, o.slice, bps[2]))
+    bslot = _port_slot(bf, bps[1], bps[2])
 
     apps = [n.id for n in bg.nodes.values() if any(
         method_call(c) and c.func.attr in ("append", "appendleft") and bslot(c.func.value) and len(c.args) == 1 and is_param(bf, c.args[0], bps[0])
@@ -1305,7 +1332,8 @@ class _Taint:
                 return "U"
             if method_call(e, "setdefault") and _tv(e.func.value):
                 return "M"
-            if method_call(e, "get") and self.kind_of(e.func.value) in ("M", "C"):
+            if method_call(e) and e.func.attr in ("get", "setdefault") and self.kind_of(e.func.value) in ("M", "C"):
+                # `m.setdefault(port, deque())` is the stored port list, like `m[port]` / `m.get(port)`
                 return {"M": "L", "C": "U"}[self.kind_of(e.func.value)]
             if DICT_PRODUCT in self.p.resolve_call(self.f, e, fanout=False):
                 for k in e.keywords:
@@ -1494,6 +1522,10 @@ _DPROD = f"{DOT}._product"
 _CPORT = f"{CART}._add_to_port"
 _ADD = f"{COMB}._add_to_list"
 
+_CPORT_BODY = ("    if port_name not in tag_values:\n        tag_values[port_name] = deque()\n    for t in tag_values[port_name]:\n"
+               "        if t.tag == token.tag:\n            return\n    tag_values[port_name].append(token)")
+_BPORT_BODY = "    if port_name not in tag_values:\n        tag_values[port_name] = deque()\n    tag_values[port_name].append(token)"
+
 VARIANTS = [
     # ---- R1
     V("cartesian: _product before _add_to_list (direct branch)", CFILE, _CCOMB,
@@ -1606,6 +1638,23 @@ VARIANTS = [
       "    if not any(t.tag == token.tag for t in tag_values[port_name]):\n        tag_values[port_name].append(token)", None),
     V("de-dup comprehension with the wrong quantifier", CFILE, _CPORT, "    for t in tag_values[port_name]:\n        if t.tag == token.tag:\n            return\n    tag_values[port_name].append(token)",
       "    if any(t.tag == token.tag for t in tag_values[port_name]):\n        tag_values[port_name].append(token)", "R1"),
+    # equivalent library calls (benign refactoring B1-6): dict.setdefault for test + assignment, any() for the loop with early return
+    V("benign: cartesian de-dup over the setdefault port list kept in a local, any() with early return", CFILE, _CPORT, _CPORT_BODY,
+      "    port_values = tag_values.setdefault(port_name, deque())\n    if any((t.tag == token.tag for t in port_values)):\n        return\n    port_values.append(token)", None),
+    V("benign: cartesian de-dup loop over the setdefault port list", CFILE, _CPORT, _CPORT_BODY,
+      "    port_values = tag_values.setdefault(port_name, [])\n    for t in port_values:\n        if t.tag == token.tag:\n            return\n    port_values.append(token)", None),
+    V("benign: base _add_to_port appends to the setdefault port list", SFILE, f"{COMB}._add_to_port", _BPORT_BODY,
+      "    tag_values.setdefault(port_name, deque()).append(token)", None),
+    V("setdefault form: de-dup test inverted (new tags are refused, duplicates stored)", CFILE, _CPORT, _CPORT_BODY,
+      "    port_values = tag_values.setdefault(port_name, deque())\n    if not any((t.tag == token.tag for t in port_values)):\n        return\n    port_values.append(token)", "R1"),
+    V("setdefault form: scan of one list, append to another port's list", CFILE, _CPORT, _CPORT_BODY,
+      "    port_values = tag_values.setdefault(port_name, deque())\n    if any((t.tag == token.tag for t in port_values)):\n        return\n    tag_values.setdefault(token.tag, deque()).append(token)", "R1"),
+    V("setdefault form: the default already holds the token (stored twice on a new port)", SFILE, f"{COMB}._add_to_port", _BPORT_BODY,
+      "    tag_values.setdefault(port_name, deque([token])).append(token)", "R3"),
+    V("setdefault form: port list created but the token is not stored", SFILE, f"{COMB}._add_to_port", _BPORT_BODY,
+      "    tag_values.setdefault(port_name, deque())", "R3"),
+    V("setdefault form: element tags still read from a possibly-schema element", SFILE, f"{COMB}._add_to_port", _BPORT_BODY,
+      "    stored = tag_values.setdefault(port_name, deque())\n    if all((t.tag != token.tag for t in stored)):\n        stored.append(token)", "R5"),
     V("benign: guard operands swapped", CFILE, _CPROD, "if len(self._token_values[tag]) == len(self.items):", "if len(self.items) == len(self._token_values[tag]):", None),
     V("benign: logging in combine", CFILE, _CCOMB, "self._add_to_list(token, port_name, self.depth)", "logger.debug(f'combine {port_name}')\n        self._add_to_list(token, port_name, self.depth)", None),
     V("benign: keyword arguments", CFILE, _CCOMB, "self._add_to_list(token, port_name, self.depth)", "self._add_to_list(token=token, port_name=port_name, depth=self.depth)", None),
